@@ -84,6 +84,10 @@ class Target:
     def loop_specs(self, c, st):
         return {}
 
+    def local_overrides(self, c, st):
+        """nested helper functions (defined inside the target) replaced by externs in the SYMBOLIC run only"""
+        return {}
+
     def ensures(self, c, st, out):
         """list of (label, formula)"""
         return []
